@@ -1369,6 +1369,7 @@ coap_pdu_parse_opt(coap_pdu_t *pdu) {
       }
     }
 
+#if !(defined(LIBCOAP_VERIF) && defined(LIBCOAP_VERIF_NO_PARSE_DUMP))
     if (!good) {
       /*
        * Dump the options in the PDU for analysis, space separated except
@@ -1424,6 +1425,7 @@ coap_pdu_parse_opt(coap_pdu_t *pdu) {
         coap_log_debug("%s\n", outbuf);
       }
     }
+#endif /* !(LIBCOAP_VERIF && LIBCOAP_VERIF_NO_PARSE_DUMP) */
 
     if (length > 0) {
       assert(*opt == COAP_PAYLOAD_START);
